@@ -20,23 +20,32 @@ func TestC17Reg_Reflection(t *testing.T) {
 		res := p2psim.StartHandshake(l.Y, p2psim.Meta(1, 1), keyB)
 		leg := p2psim.NewRawLeg(l.X)
 		eph := p2psim.EdRaw(7)
-		step := func(err error) {
-			if err != nil {
-				_ = l.X.Close()
-				r := <-res
-				t.Fatalf("%s: harness step failed: %v (endpoint: %v)", kind, err, r.Err)
+		// the attack script; it stops at the first step the endpoint no longer answers (= it refused)
+		script := func() error {
+			if _, err := leg.RecvEph(); err != nil {
+				return err
 			}
+			if err := leg.SendEph(eph.Public().(ed25519.PublicKey)); err != nil { // the attacker's own ephemeral key
+				return err
+			}
+			if err := leg.Derive(eph); err != nil {
+				return err
+			}
+			sig, err := leg.RecvSig() // B's (public key, signature over the session challenge)
+			if err != nil {
+				return err
+			}
+			if err := leg.SendMsg(p2psim.SigMsg(sig.PublicKey, sig.Signature)); err != nil { // ... sent straight back
+				return err
+			}
+			meta, err := leg.RecvMeta()
+			if err != nil {
+				return err
+			}
+			return leg.SendMsg(p2psim.MetaMsg(meta))
 		}
-		_, err := leg.RecvEph()
-		step(err)
-		step(leg.SendEph(eph.Public().(ed25519.PublicKey))) // the attacker's own ephemeral key
-		step(leg.Derive(eph))
-		sig, err := leg.RecvSig() // B's (public key, signature over the session challenge)
-		step(err)
-		step(leg.SendMsg(p2psim.SigMsg(sig.PublicKey, sig.Signature))) // ... sent straight back
-		meta, err := leg.RecvMeta()
-		step(err)
-		step(leg.SendMsg(p2psim.MetaMsg(meta)))
+		serr := script()
+		l.X.CloseWrite()
 		r := <-res
 		_ = l.X.Close()
 		if r.OK() {
@@ -44,6 +53,8 @@ func TestC17Reg_Reflection(t *testing.T) {
 			_ = r.EC.Close()
 			t.Errorf("%s: NewHandshake succeeded with a peer that holds no identity key; authenticated peer identity %x (== the endpoint's own identity: %v)",
 				kind, r.EC.Address.PublicKey, same)
+			continue
 		}
+		t.Logf("%s: endpoint refused the reflected identity: %v (script: %v)", kind, r.Err, serr)
 	}
 }
